@@ -799,4 +799,21 @@ theorem canon_isCanonical (specs : List OptionSpec) (mode : Mode) (hw : WellName
             rw [run_pending_cons] at hr'
             obtain ⟨r'', hr''⟩ := cons_ok hr'
             exact ih rest' r'' (by simp at hl; omega) hr''
+/-- a Boolean check of `WellNamed` (for `decide` on generated tables) -/
+def namesOk (specs : List OptionSpec) : Bool :=
+  specs.all fun s => s.short != some '-' && (match s.long with | some l => !l.isEmpty && !l.contains '=' | none => true)
+
+theorem wellNamed_of_namesOk (specs : List OptionSpec) (h : namesOk specs = true) : WellNamed specs := by
+  intro s hs
+  have := (List.all_eq_true.1 h) s hs
+  simp only [Bool.and_eq_true, bne_iff_ne, ne_eq] at this
+  refine ⟨this.1, ?_⟩
+  intro l hl
+  rw [hl] at this
+  simp only [Bool.and_eq_true, Bool.not_eq_true', List.isEmpty_eq_false_iff] at this
+  refine ⟨this.2.1, ?_⟩
+  intro hmem
+  have := this.2.2
+  simp [List.contains_iff_mem, hmem] at this
+
 end YashModel.Args
